@@ -23,8 +23,8 @@ theorem isValid_spec (st : RState) :
       | [], .done => .ok true
       | [], .raised e => .raise e
       | [], s => .other s
-      | _ :: _, _ => .ok false := by
-  sorry
+      | _ :: _, _ => .ok false :=
+  (prefixLaw_eval env impl cfg fuel inst schema).isValid_spec st
 
 /-- `validate()` raises the first error `iter_errors` yields. -/
 theorem validate_spec (st : RState) :
@@ -33,14 +33,14 @@ theorem validate_spec (st : RState) :
       | [], .done => .ok ()
       | [], .raised e => .raise e
       | [], s => .other s
-      | e :: _, _ => .invalid e := by
-  sorry
+      | e :: _, _ => .invalid e :=
+  (prefixLaw_eval env impl cfg fuel inst schema).validate_spec st
 
 /-- taking `k ≥ 1` errors and closing the iterator yields the first `k` errors of the full list -/
 theorem take_prefix (st : RState) (k : Nat) (hk : 0 < k) :
     (run env impl cfg fuel inst schema (some k) st).errs
-      = (run env impl cfg fuel inst schema none st).errs.take k := by
-  sorry
+      = (run env impl cfg fuel inst schema none st).errs.take k :=
+  (prefixLaw_eval env impl cfg fuel inst schema).take_prefix st k hk
 
 /-- `is_valid` ⇔ `validate()` raises nothing ⇔ `iter_errors` yields nothing (when no exception) -/
 theorem entry_points_agree (st : RState)
@@ -48,24 +48,24 @@ theorem entry_points_agree (st : RState)
     ((isValid (run env impl cfg fuel inst schema) st).1 = .ok true
         ↔ (run env impl cfg fuel inst schema none st).errs = [])
     ∧ ((validateM (run env impl cfg fuel inst schema) st).1 = .ok ()
-        ↔ (run env impl cfg fuel inst schema none st).errs = []) := by
-  sorry
+        ↔ (run env impl cfg fuel inst schema none st).errs = []) :=
+  (prefixLaw_eval env impl cfg fuel inst schema).entry_points_agree st hdone
 
 /-- `best_match` returns an error without context that is one of the given errors or a
     descendant of one of them in its context tree. -/
 theorem bestMatch_mem (weak strong : List Str) (es : List Err) (b : Err)
     (h : bestMatch weak strong es = some b) :
-    b.context = [] ∧ ∃ e ∈ es, b ∈ (Err.closure [] [] e).map (·.2.2) := by
-  sorry
+    b.context = [] ∧ ∃ e ∈ es, b ∈ (Err.closure [] [] e).map (·.2.2) :=
+  bestMatch_mem' weak strong es b h
 
 theorem bestMatch_none_iff (weak strong : List Str) (es : List Err) :
-    bestMatch weak strong es = none ↔ es = [] := by
-  sorry
+    bestMatch weak strong es = none ↔ es = [] :=
+  bestMatch_none_iff' weak strong es
 
 /-- when no error has a context, `best_match` is the first error of maximal relevance -/
 theorem bestMatch_flat (weak strong : List Str) (e : Err) (es : List Err)
     (h : ∀ x ∈ e :: es, x.context = []) :
-    bestMatch weak strong (e :: es) = some (maxBy (relevance weak strong) e es) := by
-  sorry
+    bestMatch weak strong (e :: es) = some (maxBy (relevance weak strong) e es) :=
+  bestMatch_flat' weak strong e es h
 
 end JS.Props.C04
